@@ -637,8 +637,8 @@ fn now_ms() -> u64 {
 
 fn run<A: ArchOps>(lines: Vec<String>, hang_ms: u64) {
     IS_SCRIPT_THREAD.with(|c| c.set(true));
-    let stdout = std::io::stdout();
-    let mut out = std::io::BufWriter::new(stdout.lock());
+    // not locked: the watchdog thread must be able to print while this thread is stuck in a call
+    let mut out = std::io::BufWriter::new(std::io::stdout());
     let mut mems: HashMap<String, HashMap<u64, u64>> = HashMap::new();
     let mut modules: HashMap<String, Module<Data>> = HashMap::new();
     let mut unws: HashMap<String, A::U> = HashMap::new();
